@@ -85,6 +85,10 @@ impl crate::graph::GraphRunner for MTGraph {
                             Ok(v) => v,
                             Err(e) => {
                                 error!("Block work function failed: {e}");
+                                // Stop the rest of the graph too. A block that
+                                // can't see that its peer is gone would
+                                // otherwise keep run() from ever returning.
+                                cancel_token.cancel();
                                 return Err(e);
                             }
                         };
@@ -127,15 +131,25 @@ impl crate::graph::GraphRunner for MTGraph {
             threads.push(th);
         }
         debug!("Joining threads");
+        let mut first_err = None;
         for (n, th) in threads.into_iter().rev().enumerate() {
             let name = th.thread().name().unwrap().to_string();
             debug!("Waiting for {}", name);
-            let j = th
-                .join()
-                .expect("joining thread")
-                .expect("block exit status");
-            debug!("Thread {} finished with {:?}", name, j);
-            self.block_stats.insert((n, name), j);
+            match th.join().expect("joining thread") {
+                Ok(j) => {
+                    debug!("Thread {} finished with {:?}", name, j);
+                    self.block_stats.insert((n, name), j);
+                }
+                Err(e) => {
+                    debug!("Thread {} failed with {:?}", name, e);
+                    if first_err.is_none() {
+                        first_err = Some(e);
+                    }
+                }
+            }
+        }
+        if let Some(e) = first_err {
+            return Err(e);
         }
         self.spent_time = Some(st.elapsed());
         self.spent_cpu_time = Some(get_cpu_time() - run_start_cpu);
